@@ -307,7 +307,9 @@ class Model:
             # in a function of its own
             self.fn_depth += 1
             try:
-                self.element(self.frames[-1][slot], None)
+                # (through node(): a tal:on-error on the fill-slot element
+                # goes with its content to the place of the slot)
+                self.node(self.frames[-1][slot])
             finally:
                 self.fn_depth -= 1
             return
